@@ -95,12 +95,16 @@ def label(params):
     return '%s/%s' % (params['config'], ','.join('%s=%s' % kv for kv in sorted(params['budget'].items())))
 
 
-def explore(params, monitors, state_monitors=(), quick=True, max_states=None):
+def explore(params, monitors, state_monitors=(), quick=True, max_states=None, jobs=0):
     ex = Explorer(lambda: build(params), enabled_for(params), P.apply_event, monitors=monitors,
                   state_monitors=state_monitors, extra_fn=P.budget_key,
                   abstraction_checks=20 if quick else 60, replay_every=100 if quick else 500,
                   max_states=max_states, label=label(params), cover=COVER)
-    ex.run()
+    if jobs and jobs > 1:
+        from .explorer import run_parallel
+        run_parallel(ex, jobs)        # level-synchronous parallel BFS (thorough tiers)
+    else:
+        ex.run()
     return ex
 
 
